@@ -365,6 +365,71 @@ def hello_end_offset(wire: bytes, dtls: bool) -> int:
         elif len(acc) >= 4 and len(acc) >= 4 + int.from_bytes(acc[1:4], "big"): return r.p
 
 
+def lib_idna_hex(raw: bytes) -> str:
+    """library answer IdnaLib.idna: raw.decode('idna') as UTF-8 hex, '!' when the codec raises"""
+    try:
+        return hx(raw.decode("idna").encode("utf-8", "surrogatepass"))
+    except ValueError:
+        return "!"
+
+
+def nameprep_table(raw: bytes) -> str:
+    """library answers for Nameprep.prep: for every dot-label starting with xn-- whose punycode the interpreter can decode,
+    `decoded code points > nameprep(decoded)` (or `!`). The model must ask nothing else (else it answers lib-miss)."""
+    import encodings.idna as I
+    def cps(t): return ",".join(str(ord(c)) for c in t) or "-"
+    ents = []
+    for lab in raw.split(b"."):
+        if lab.startswith(b"xn--"):
+            try: t = lab[4:].decode("punycode")
+            except Exception: continue
+            try: o = cps(I.nameprep(t))
+            except UnicodeError: o = "!"
+            e = cps(t) + ">" + o
+            if e not in ents: ents.append(e)
+    return ";".join(ents) or "-"
+
+
+def vhostN_lines(nm: bytes):
+    """third transcription level: idna codec (punycode, ToASCII/ToUnicode) inside the model, only nameprep supplied"""
+    t = nameprep_table(nm)
+    return [f"idnaN {hx(nm)} {t}", f"idnaN {hx(strip_dot(nm))} {t}", f"vhostN {hx(nm)} {t}"]
+
+
+def vhostN_expect(nm: bytes, v: bool):
+    """what the three vhostN_lines must answer; idna results only matter (and are only computed by Python's slow path
+    the way the model does) when the input contains xn--; without it the fast path gives the bytes back or fails"""
+    return [lib_idna_hex(nm) if nm else "-", lib_idna_hex(strip_dot(nm)) if strip_dot(nm) else "-", "1" if v else "0"]
+
+
+def vhostT_line(nm: bytes) -> str:
+    return f"vhostT {hx(nm)} {lib_idna_hex(nm)} {lib_idna_hex(strip_dot(nm))}"
+
+
+_VHOST_CACHE = {}
+
+
+def host_lines_with_lib(nm: bytes):
+    return [vhostT_line(nm)] + vhostN_lines(nm)
+
+
+def judge_host_replies(nm: bytes, rep, err=None) -> str:
+    """'0'/'1' when validHostT, validHostN and the transcribed idna texts are all consistent with the interpreter"""
+    if err or len(rep) != 4: return f"driver:{err}"
+    if rep[1:3] != vhostN_expect(nm, True)[:2]: return f"idna transcription says {rep[1:3]}"
+    if rep[3] != rep[0]: return f"validHostT {rep[0]} but validHostN {rep[3]}"
+    return rep[0]
+
+
+def model_host_with_lib(nm: bytes):
+    """validHostT / validHostN for a name that needs library answers and was not foreseen in model_lines: own driver call"""
+    if nm not in _VHOST_CACHE:
+        from common import lean as L
+        rep, err = L.run_driver("C13", host_lines_with_lib(nm))
+        _VHOST_CACHE[nm] = judge_host_replies(nm, rep, err)
+    return _VHOST_CACHE[nm]
+
+
 def first_fragment_flight(wire: bytes) -> bytes:
     """a DTLS flight made of the first handshake fragment of `wire` only (header as sent), in one record"""
     r = Rd(wire); r.take(11); rec = Rd(r.vec(2))
@@ -383,7 +448,11 @@ class Check(PropertyCheck):
                   "segmentation, anything after the hello inside the payload or after the records), agrees_with_builder + "
                   "built_any_split + alpn/sni/extensions_of_built for every well-formed structured hello, sni_outright + "
                   "validHost_of_labels/_too_long/_non_ascii (SNI of LDH/underscore names independent of the idna/ipaddress "
-                  "library), starts_table_is_function + starts_three_bytes_suffice (the probed starts_like_*_record table equals "
+                  "library), validHostT_closed_form / validHostT_lib_free / sni_lib_free (ipaddress.ip_address = C22.parseIp inside the "
+                  "model: is_valid_host of any name without xn-- is a closed expression, no library answer), toUnicode_congr / "
+                  "decodeIdna_congr / validHostN_congr / validHostN_lib_free / toUnicode_roundtrip / validHost_alabel_example (the "
+                  "idna codec — punycode, ToASCII/ToUnicode, Codec.decode — transcribed; only nameprep is a parameter, asked only "
+                  "about punycode-decoded xn-- labels), starts_table_is_function + starts_three_bytes_suffice (the probed starts_like_*_record table equals "
                   "the source expression transcribed from the AST on every byte string) — all for ALL byte strings (induction, "
                   "no bounds); record_any_size_accepted / record_header_prefix_incomplete (no record-size bound below 65535: examples at "
                   "2^14, 2^14+1, 65535). DTLS handshake *fragmentation* is stated in full, proved only for unfragmented flights "
@@ -392,9 +461,12 @@ class Check(PropertyCheck):
                   "(type, bytes) list, for whole inputs, prefixes and segment-by-segment feeding; is_valid_host and "
                   "starts_like_*_record also tied directly (ops vhost / starts).")
     level_note = ("trusted: Lean kernel; model/implementation tie is differential (not a proof about Python). Inside "
-                  "is_valid_host two library answers stay parameters of the model (HostLib): bytes.decode('idna') when the name "
-                  "contains b'xn--' (punycode/nameprep slow path) and ipaddress.ip_address when some label fails the DNS-label "
-                  "regex; the tie supplies the real library's answers, the model decides everything else. starts_like_*_record: "
+                  "is_valid_host three nested models are tied to the code: validHost (HostLib: idna(xn--) and ipaddress answers "
+                  "supplied), validHostT (ipaddress = C22.parseIp in the model, decoded idna text supplied) and validHostN (idna "
+                  "codec in the model: punycode decode/encode, ToASCII, ToUnicode, Codec.decode transcribed from CPython 3.12; "
+                  "supplied: only encodings.idna.nameprep = stringprep tables + NFKC, for the punycode-decoded xn-- labels, with a "
+                  "two-default run that reports any other question as lib-miss). The one remaining parameter is nameprep "
+                  "(Unicode data of the interpreter). starts_like_*_record: "
                   "Gen holds both the AST transcription and the probed behaviour, Lean proves them equal. The ground-truth "
                   "oracle demands the exact SNI only for a single host_name entry that is an RFC 6066 LDH host name (or no "
                   "host_name entry: None); for other names it only demands None-or-one-of-the-offered-host_names. "
@@ -420,14 +492,16 @@ class Check(PropertyCheck):
         "mitmproxy.proxy.layers.tls:get_dtls_client_hello", "mitmproxy.proxy.layers.tls:dtls_parse_client_hello",
         "mitmproxy.proxy.layers.tls:ClientTLSLayer.receive_handshake_data",
         "mitmproxy.net.tls:starts_like_tls_record", "mitmproxy.net.tls:starts_like_dtls_record",
-        "mitmproxy.net.check:is_valid_host",
+        "mitmproxy.net.check:is_valid_host", "encodings.idna:ToUnicode", "encodings.idna:ToASCII", "encodings.idna:Codec.decode",
+        "encodings.punycode:punycode_decode", "encodings.punycode:punycode_encode", "encodings.punycode:insertion_sort", "encodings.punycode:adapt",
         "mitmproxy.tls:ClientHello.__init__", "mitmproxy.tls:ClientHello.sni", "mitmproxy.tls:ClientHello.alpn_protocols",
         "mitmproxy.tls:ClientHello.extensions", "mitmproxy.tls:ClientHello.cipher_suites",
         "mitmproxy.contrib.kaitaistruct.tls_client_hello:TlsClientHello",
         "mitmproxy.contrib.kaitaistruct.dtls_client_hello:DtlsClientHello",
     ]
     trusted_base = ["kaitaistruct 0.11 KaitaiStream (read_u1/u2be/u4be/read_bytes raise EOFError exactly when short; is_eof)",
-                    "CPython 3.12 encodings.idna (names containing b'xn--') and ipaddress.ip_address (names with a label outside the DNS-label regex): HostLib parameters, real answers used in the tie",
+                    "encodings.idna.nameprep (stringprep tables, unicodedata NFKC) for punycode-decoded xn-- labels: the only library parameter of validHostN; real answers used in the tie",
+                    "C22.parseIp as the transcription of ipaddress.ip_address (tied by C22's own differential run and here through op vhostT/vhostN)",
                     "re semantics of rb'[A-Z\\d\\-_]{1,63}$' with IGNORECASE on bytes (transcribed as labelValid, tied by op vhost)",
                     "CPython ssl / pyOpenSSL clients as sources of real ClientHellos"]
     parallel = False               # fork pool only pays off in the thorough tier (set in setup)
@@ -1048,7 +1122,9 @@ class Check(PropertyCheck):
 
     # ---------------------------------------------------------------------------------------------
     def model_lines(self, case):
-        if case["kind"] == "host": return [f"vhost {case['name_hex']}"]
+        if case["kind"] == "host":
+            nm = unhx(case["name_hex"])
+            return [f"vhost {case['name_hex']}", vhostT_line(nm)] + vhostN_lines(nm)
         if case["kind"] == "starts": return [f"starts {1 if case['dtls'] else 0} {case['data_hex']}"]
         dtls, wires, _ = self.resolve(case)
         d = "1" if dtls else "0"
@@ -1056,7 +1132,20 @@ class Check(PropertyCheck):
         segs = cut(wires[0], case.get("cuts"))
         lines.append(f"feed {d} " + " ".join(hx(s) for s in segs) if segs else f"feed {d}")
         lines += [f"parse {d} {hx(wires[0][:i])}" for i in self.tie_prefixes(case, wires[0])]
+        for nm in self.ace_names(case):         # names that will need library answers, known from the spec: same batch
+            lines += host_lines_with_lib(nm)
         return lines
+
+    @staticmethod
+    def ace_names(case):
+        if case["kind"] != "built": return []
+        out = []
+        for e in case["exts"] or []:
+            if e["t"] == "sni":
+                for _, h in e["names"]:
+                    nm = unhx(h)
+                    if b"xn--" in nm and nm not in out: out.append(nm)
+        return out
 
     @staticmethod
     def _lst(s):
@@ -1070,12 +1159,24 @@ class Check(PropertyCheck):
             bits = replies[0]
             if len(bits) != 4 or set(bits) - {"0", "1"}: return {"model-said": bits}
             try:
-                return {"valid": pick_host_bit(unhx(case["name_hex"]), bits)}
+                v = pick_host_bit(unhx(case["name_hex"]), bits)
             except Exception as e:              # a library answer failed in an undocumented way: still compare
                 return {"valid": "lib-exc:" + type(e).__name__}
+            # second transcription level: ipaddress inside the model (validHostT), only idna(xn--) supplied
+            if replies[1] != ("1" if v else "0"): return {"valid": f"validHost says {v}, validHostT says {replies[1]}"}
+            # third level: the idna codec inside the model (validHostN): decoded texts and verdict
+            nm = unhx(case["name_hex"])
+            if replies[2:5] != vhostN_expect(nm, v):
+                return {"valid": f"idna transcription: model {replies[2:5]} vs interpreter {vhostN_expect(nm, v)}"}
+            return {"valid": v}
         if case["kind"] == "starts":
             return {"table": replies[0][:1], "source": replies[0][1:]}
         out = []
+        names = self.ace_names(case)
+        foreseen = {}
+        if names:
+            extra = replies[len(replies) - 4 * len(names):]; replies = replies[:len(replies) - 4 * len(names)]
+            for i, nm in enumerate(names): foreseen[nm] = judge_host_replies(nm, extra[4 * i:4 * i + 4])
         for rep in replies:
             f = rep.split(" ")
             if f[0] in ("incomplete", "invalid") and len(f) == 1:
@@ -1088,9 +1189,14 @@ class Check(PropertyCheck):
             # answers (idna slow path with xn--, ipaddress) are supplied: each candidate comes with its 4 verdicts
             try:
                 for cand in self._lst(kv["s"]):
-                    ch, bits = cand.split(":")
+                    ch, bits, verdict = cand.split(":")
                     cb = unhx(ch)
-                    if pick_host_bit(cb, bits):
+                    v = pick_host_bit(cb, bits)
+                    # validHostT: decided by the model alone unless the name contains xn-- (then: own driver call)
+                    vt = verdict if verdict in ("0", "1") else foreseen[cb] if cb in foreseen else model_host_with_lib(cb)
+                    if vt != ("1" if v else "0"):
+                        sni = f"validHost says {v}, validHostT says {vt} for {ch}"; break
+                    if v:
                         sni = cb.decode("ascii", "replace"); break
             except Exception as e:
                 sni = "lib-exc:" + type(e).__name__
